@@ -505,6 +505,24 @@ Section RemH.
     Qed.
   End PathFacts.
 
+  Lemma inner_links : forall (h : heap) pbp x0 S i, Rep h pbp x0 S -> In i (inners S) ->
+    exists xn l r', nth_error h i = Some xn /\ n_left xn = Some l /\ n_right xn = Some r' /\ 1 <= n_bp xn - pbp.
+  Proof.
+    induction 1 as [|pbp c cn l r tl tr Hc LT HL HR Rl IHl Rr IHr]; intros I; simpl in I; [contradiction|].
+    destruct I as [<- | I]; [exists cn, l, r; repeat split; auto; lia|].
+    apply in_app_or in I as [I | I]; [destruct (IHl I) as [xn [a [b [E1 [E2 [E3 E4]]]]]] | destruct (IHr I) as [xn [a [b [E1 [E2 [E3 E4]]]]]]];
+      exists xn, a, b; repeat split; auto; lia.
+  Qed.
+
+  Definition setl (xn : pnode) (s : bool) (v : option nat) : pnode :=
+    if s then with_right xn v else with_left xn v.
+
+  Lemma set_eval : forall (g : heap) x xn (s : bool) v, nth_error g x = Some xn ->
+    (if s then set_right g x v else set_left g x v) = ROk (hset g x (setl xn s v)).
+  Proof.
+    intros g x xn s v H. unfold set_right, set_left, hget, setl. rewrite H. destruct s; reflexivity.
+  Qed.
+
   (** [relinked h H' kk n r rp np co]: heap [H'] implements the re-linking of remove on heap [h] *)
   Definition relinked (h H' : heap) (kk : key) (n r rp np co : nat) : Prop :=
     (forall x xn, nth_error h x = Some xn -> x <> r ->
@@ -535,5 +553,134 @@ Section RemH.
   Proof.
     intros h H' kk n r rp np co r0 rn0 c0 T [G [[rnode [Hrn [Hco Hnb]]] GK]].
     exact (remove_represented h H' kk n r rp np co r0 G rnode Hrn Hco Hnb GK rn0 c0 T).
+  Qed.
+
+  (** ** the heap computed by the writes of remove is [relinked] *)
+  Lemma setl_bp : forall (xn : pnode) s v, n_bp (setl xn s v) = n_bp xn.
+  Proof. intros xn [] v; reflexivity. Qed.
+  Lemma setl_key : forall (xn : pnode) s v, n_key (setl xn s v) = n_key xn.
+  Proof. intros xn [] v; reflexivity. Qed.
+  Lemma setl_val : forall (xn : pnode) s v, n_val (setl xn s v) = n_val xn.
+  Proof. intros xn [] v; reflexivity. Qed.
+
+  (** a node whose [s]-side link is [y] (and whose other link is not), after redirecting that link *)
+  Definition linked (xn : pnode) (s : bool) (y : nat) : Prop :=
+    if s then n_right xn = Some y /\ n_left xn <> Some y else n_left xn = Some y /\ n_right xn <> Some y.
+
+  Lemma oeq_some : forall a b, oeq (Some a) (Some b) = Nat.eqb a b.
+  Proof. reflexivity. Qed.
+  Lemma oeq_neq : forall lk y, lk <> Some y -> oeq lk (Some y) = false.
+  Proof.
+    intros [a|] y H; simpl; auto. apply Nat.eqb_neq. congruence.
+  Qed.
+
+  (** redirecting the path-side link of [x] from [y] to [v]: what [phi]-like maps see *)
+  Lemma setl_links : forall (xn : pnode) s y v (f : option nat -> option nat),
+    linked xn s y -> f (Some y) = v -> (forall lk, lk <> Some y -> f lk = lk) ->
+    n_left (setl xn s v) = f (n_left xn) /\ n_right (setl xn s v) = f (n_right xn).
+  Proof.
+    intros xn s y v f L F1 F2. unfold linked in L. destruct s; simpl; destruct L as [L1 L2].
+    - rewrite L1, F1. split; auto. symmetry. now apply F2.
+    - rewrite L1, F1. split; auto. symmetry. now apply F2.
+  Qed.
+
+  Lemma relinked_A : forall (h : heap) kk n rp co rpn rnode,
+    nth_error h rp = Some rpn -> nth_error h n = Some rnode -> rp <> n ->
+    forall s, linked rpn s n ->
+    (if PatInv.pbit kk (n_bp rnode) then n_left rnode else n_right rnode) = Some co ->
+    relinked h (hset h rp (setl rpn s (Some co))) kk n n rp rp co.
+  Proof.
+    intros h kk n rp co rpn rnode Hrp Hn NE s L Hco.
+    assert (Lrp : (rp < length h)%nat) by (apply nth_error_Some; congruence).
+    split; [|split].
+    - intros x xn Hx NX. unfold rho. rewrite (proj2 (Nat.eqb_neq x n) NX).
+      destruct (Nat.eq_dec x rp) as [->|NR].
+      + rewrite Hrp in Hx. injection Hx as <-. rewrite nth_hset_eq by exact Lrp.
+        eexists. split; [reflexivity|]. split; [apply setl_bp|].
+        apply (setl_links rpn s n (Some co) (phi n n rp rp co rp)); auto.
+        * unfold phi. now rewrite Nat.eqb_refl, oeq_some, Nat.eqb_refl.
+        * intros lk H. unfold phi. now rewrite (oeq_neq lk n H), !andb_false_r.
+      + rewrite nth_hset_neq by auto. exists xn. split; auto. split; auto.
+        unfold phi. rewrite (proj2 (Nat.eqb_neq x rp) NR). auto.
+    - exists rnode. auto.
+    - intros j jn Hj NJ. destruct (Nat.eq_dec j rp) as [->|NR].
+      + rewrite Hrp in Hj. injection Hj as <-. rewrite nth_hset_eq by exact Lrp.
+        eexists. split; [reflexivity|]. split; [apply setl_key | apply setl_val].
+      + rewrite nth_hset_neq by auto. eauto.
+  Qed.
+
+  Definition heapB (h : heap) (n r rp np co : nat) (rpn npn nn rnode : pnode) (s1 s2 : bool) : heap :=
+    let RP' := setl rpn s1 (Some co) in
+    let NP' := setl npn s2 (Some r) in
+    let NN2 := if Nat.eqb n rp then RP' else nn in
+    hset (hset (hset h rp RP') np NP') r
+         {| n_bp := n_bp NN2; n_key := n_key rnode; n_val := n_val rnode;
+            n_left := n_left NN2; n_right := n_right NN2 |}.
+
+  Lemma relinked_B : forall (h : heap) kk n r rp np co rpn npn nn rnode s1 s2,
+    nth_error h rp = Some rpn -> nth_error h np = Some npn ->
+    nth_error h n = Some nn -> nth_error h r = Some rnode ->
+    n <> r -> rp <> r -> np <> rp -> np <> n ->
+    linked rpn s1 r -> (np = r \/ (np <> r /\ linked npn s2 n)) ->
+    (if PatInv.pbit kk (n_bp rnode) then n_left rnode else n_right rnode) = Some co ->
+    n_bp nn <= n_bp rnode ->
+    relinked h (heapB h n r rp np co rpn npn nn rnode s1 s2) kk n r rp np co.
+  Proof.
+    intros h kk n r rp np co rpn npn nn rnode s1 s2 Hrp Hnp Hn Hr NR RPR NPRP NPN L1 L2 Hco BPN.
+    assert (Lrp : (rp < length h)%nat) by (apply nth_error_Some; congruence).
+    assert (Lnp : (np < length h)%nat) by (apply nth_error_Some; congruence).
+    assert (Lr : (r < length h)%nat) by (apply nth_error_Some; congruence).
+    unfold heapB. set (RP' := setl rpn s1 (Some co)). set (NP' := setl npn s2 (Some r)).
+    set (NN2 := if Nat.eqb n rp then RP' else nn).
+    set (h1 := hset h rp RP'). set (h2 := hset h1 np NP').
+    assert (L1' : (np < length h1)%nat) by (unfold h1; now rewrite hset_length).
+    assert (L2' : (r < length h2)%nat) by (unfold h2, h1; now rewrite !hset_length).
+    (* lookups below the last write *)
+    assert (LK2 : forall x, x <> np -> x <> rp -> nth_error h2 x = nth_error h x).
+    { intros x N1 N2. unfold h2, h1. now rewrite !nth_hset_neq by auto. }
+    assert (LKrp : nth_error h2 rp = Some RP').
+    { unfold h2. rewrite nth_hset_neq by auto. unfold h1. now apply nth_hset_eq. }
+    assert (LKnp : nth_error h2 np = Some NP') by (unfold h2; now apply nth_hset_eq).
+    assert (PHrp : forall lk, lk <> Some r -> phi n r rp np co rp lk = lk).
+    { intros lk H. unfold phi. rewrite (oeq_neq lk r H), andb_false_r.
+      now rewrite (proj2 (Nat.eqb_neq rp np) (fun E => NPRP (eq_sym E))). }
+    assert (PHrp1 : phi n r rp np co rp (Some r) = Some co).
+    { unfold phi. now rewrite Nat.eqb_refl, oeq_some, Nat.eqb_refl. }
+    split; [|split].
+    - intros x xn Hx NX. unfold rho. destruct (Nat.eqb_spec x n) as [->|NXN].
+      + (* the target: its record moves to r *)
+        rewrite Hn in Hx. injection Hx as <-. rewrite nth_hset_eq by exact L2'.
+        eexists. split; [reflexivity|]. cbn [n_bp n_left n_right]. unfold NN2.
+        destruct (Nat.eqb_spec n rp) as [E|NE].
+        * subst rp. assert (EQ : rpn = nn) by congruence. subst rpn. split; [apply setl_bp|].
+          apply (setl_links nn s1 r (Some co) (phi n r n np co n)); auto.
+        * split; auto. unfold phi. rewrite (proj2 (Nat.eqb_neq n rp) NE).
+          now rewrite (proj2 (Nat.eqb_neq n np) (fun E => NPN (eq_sym E))).
+      + rewrite nth_hset_neq by auto.
+        destruct (Nat.eq_dec x np) as [->|NNP].
+        * destruct L2 as [E | [_ L2]]; [congruence|].
+          rewrite Hnp in Hx. injection Hx as <-. rewrite LKnp.
+          eexists. split; [reflexivity|]. split; [apply setl_bp|].
+          apply (setl_links npn s2 n (Some r) (phi n r rp np co np)); auto.
+          -- unfold phi. rewrite (proj2 (Nat.eqb_neq np rp) NPRP). simpl.
+             now rewrite !Nat.eqb_refl.
+          -- intros lk H. unfold phi. rewrite (proj2 (Nat.eqb_neq np rp) NPRP). simpl.
+             now rewrite (oeq_neq lk n H), andb_false_r.
+        * destruct (Nat.eq_dec x rp) as [->|NRP].
+          -- rewrite Hrp in Hx. injection Hx as <-. rewrite LKrp.
+             eexists. split; [reflexivity|]. split; [apply setl_bp|].
+             apply (setl_links rpn s1 r (Some co) (phi n r rp np co rp)); auto.
+          -- rewrite LK2 by auto. exists xn. split; auto. split; auto. unfold phi.
+             rewrite (proj2 (Nat.eqb_neq x rp) NRP), (proj2 (Nat.eqb_neq x np) NNP). auto.
+    - exists rnode. split; auto. split; auto. right. eauto.
+    - intros j jn Hj NJ. destruct (Nat.eq_dec j r) as [->|NJR].
+      + rewrite Hr in Hj. injection Hj as <-. rewrite nth_hset_eq by exact L2'. eexists. split; [reflexivity|]. auto.
+      + rewrite nth_hset_neq by auto. destruct (Nat.eq_dec j np) as [->|NNP].
+        * rewrite Hnp in Hj. injection Hj as <-. rewrite LKnp. eexists. split; [reflexivity|].
+          split; [apply setl_key | apply setl_val].
+        * destruct (Nat.eq_dec j rp) as [->|NRP].
+          -- rewrite Hrp in Hj. injection Hj as <-. rewrite LKrp. eexists. split; [reflexivity|].
+             split; [apply setl_key | apply setl_val].
+          -- rewrite LK2 by auto. eauto.
   Qed.
 End RemH.
